@@ -186,8 +186,8 @@ def space_add_pools(self, agent, x_pos, y_pos, z_pos, old):
 contract('Environments.SpaceWorld.add_agent',
          params={'self': 'ref:SpaceWorld', 'agent': 'ref:Agent', 'x_pos': 'num', 'y_pos': 'num', 'z_pos': 'num'},
          requires=[Env_rep, env_linked, joiner_ok, env_mirror, InWorld, no_position_pool],
-         ensures={'C04': [space_add_post, Env_rep], 'C08': [space_add_placed, InWorld],
-                  'C03': [space_add_pools, env_mirror, no_position_pool]},
+         ensures={'C04': [space_add_post, Env_rep], 'C08': [space_add_post, Env_rep, space_add_placed, InWorld],
+                  'C03': [space_add_post, Env_rep, space_add_pools, env_mirror, no_position_pool]},
          raises={'Exception': dict(when=placement_oob), 'DuplicateAgentError': dict(when=placement_dup)},
          modifies=['self.agents', 'self.model.systems.component_pools', 'store:list[ref:Component]',
                    'new:list[ref:Component]', 'agent.components', 'new:obj:PositionComponent'],
@@ -221,8 +221,8 @@ def space_remove_pools(self, a_id, old):
 contract('Environments.SpaceWorld.remove_agent',
          params={'self': 'ref:SpaceWorld', 'a_id': 'str'},
          requires=[Env_rep, env_linked, env_mirror, InWorld, leaver_positioned, no_position_pool],
-         ensures={'C04': [space_remove_post, Env_rep], 'C08': [space_remove_dropped, InWorld],
-                  'C03': [space_remove_pools, env_mirror, no_position_pool]},
+         ensures={'C04': [space_remove_post, Env_rep], 'C08': [space_remove_post, Env_rep, space_remove_dropped, InWorld],
+                  'C03': [space_remove_post, Env_rep, space_remove_pools, env_mirror, no_position_pool]},
          raises={'AgentNotFoundError': dict(when=env_remove_unknown)},
          modifies=['self.agents', 'self.model.systems.component_pools', 'store:list[ref:Component]',
                    'self.agents[a_id].components'],
@@ -327,7 +327,8 @@ def Grid_rep(self):
 
 def discrete_init_post(self, model, width, height, depth, id, wrap_env, old):
     return (self.width == width and self.height == height and self.depth == depth and self.wrap_env == wrap_env
-            and self.id == id and self.model is model and len(self.agents) == 0 and len(self.cells.cols) == 0)
+            and self.id == id and self.model is model and len(self.agents) == 0 and len(self.cells.cols) == 0
+            and self._index_offset == 1)
 
 
 def nonneg_extents(self, model, width, height, depth, id, wrap_env):
